@@ -17,6 +17,26 @@ CLAIMED = {
         "Trusted: Coq kernel + vm_compute; the translator (checked dynamically each run); a/b>c rewritten to a>c*b (argued exact); "
         "argparse/configparser deliver the value as str (exercised end to end, not modelled).",
         "DESIGN.md section 5 C12"),
+    "C01": (
+        "Coq proof (cursor invariant of the Hasher iterator) + extracted-model correspondence + reference-oracle search",
+        "Machine-checked proof, for every SHA-1 function, every list of files (any sizes, empty files anywhere, pieces straddling any "
+        "number of files) and every piece length > 0, that the hand-written state-machine model of hasher.Hasher feeds exactly the "
+        "successive piece-length slices of the concatenated files to the hash (only the last may be short), that the entry list has one "
+        "non-padding entry per file, and that a single file is hashed alone.  The model is tied to the code on every run by running its "
+        "extracted OCaml against the real iterator (small scope exhaustively in the thorough tier) and the written metafiles are "
+        "compared with an independent BEP 3 reference on generated trees.",
+        "Trusted: Coq kernel; extraction (ExtrOcamlBasic/String) and the OCaml SHA-1 for the correspondence only; the hand model's tie is "
+        "differential testing; directory listing and file reads by the OS; listing order (sorted) is exercised end to end here and proved in C08.",
+        "DESIGN.md section 5 C01"),
+    "C15": (
+        "Coq proof (align mode of the Hasher model and of the entry list) + extracted-model correspondence + oracle search",
+        "Machine-checked proof, for every hash function, file list and piece length, that in align mode the model of Hasher hashes the "
+        "stream in which each file is followed by zeros up to the next piece boundary, that the entry list of TorrentFile.assemble "
+        "describes exactly that stream (each pad entry = the gap, 0 < gap < pl, after its file), that every payload file starts on a "
+        "boundary, that listed lengths = pieces * piece length, and that a single file is hashed alone.  Tied to the code by extracted-model "
+        "correspondence (Hasher(align=True), info.files) and searched end to end against the property on generated trees.",
+        "Trusted: as C01.",
+        "DESIGN.md section 5 C15"),
 }
 
 PENDING_REASON = "check not built yet (work in progress; see DESIGN.md section 9)"
